@@ -16,6 +16,11 @@ Any number of threads (`Tid`) and sessions (`Sid`); every thread is, when idle, 
 (request / DELETE / opening call / sweep / shutdown), so the model contains every mix of request threads, DELETE
 threads, reaper and shutdown.  The clock moves by arbitrary `tick`s (backwards too).
 
+`_close_entry`'s wait for the entry lock is a parameter (`Disc`, extracted from the source): blocking
+(`with entry.lock:` — the repaired code), or bounded (`entry.lock.acquire(timeout=…)`), in which case the timed
+acquire may FAIL while another thread holds the lock (`entTimeout`) and the close goes on without the lock (or is
+skipped), as the source says.  `step` is the model of the extracted discipline `Gen.Sticky`; `stepD` that of any.
+
 Shared state: the registry lock, the registry (`live`, with `order` = dict insertion order, `expires`, the
 stored principal check `pmatch`), one `RLock` and one `closed` flag per entry.  Ghost state (`dsp`, `crun`,
 `cstart`, `cend`) records exactly what the spec's observer computes from the begin/end/close events.
@@ -39,6 +44,17 @@ def cmpInt : Cmp → Int → Int → Bool
 def getExpired (expires now : Int) : Bool := cmpInt getExpiredCmp expires now
 /-- `drain_expired`: `e.expires_at <cmp> now` -/
 def sweepExpired (expires now : Int) : Bool := cmpInt sweepExpiredCmp expires now
+
+/-- how `_close_entry` waits for the entry lock -/
+structure Disc where
+  /-- `none`: blocking acquire; `some ms`: `acquire(timeout=ms)` — the acquire can fail while the lock is held -/
+  closeWaitMillis : Option Nat
+  /-- after a failed timed acquire the `closed` check and `state.close()` run anyway (else the close is skipped) -/
+  proceedsWithoutLock : Bool
+deriving Repr, DecidableEq
+
+/-- the discipline of the source, as extracted -/
+def srcDisc : Disc := ⟨closeLockWaitMillis, closeProceedsWithoutLock⟩
 
 /-- which endpoint called `registry.get` -/
 inductive Kind where
@@ -66,6 +82,8 @@ inductive Pc where
   | cOpen (s : Sid) (c : Cont)              -- … lock held, `closed` was False and is now True, hook not yet started
   | cRun (s : Sid) (c : Cont)               -- … inside `state.close()`
   | cRel (s : Sid) (c : Cont)               -- … about to leave `with entry.lock:`
+  | uOpen (s : Sid) (c : Cont)              -- … timed acquire FAILED: `closed` set, hook not yet started, lock NOT held
+  | uRun (s : Sid) (c : Cont)               -- … inside `state.close()` without the entry lock
   | eAcq (k : Kind) (s : Sid)               -- registry hit: about to `entry.lock.acquire()` / `with entry.lock:`
   | liveAcq (s : Sid)                       -- request holds the entry lock: about to `is_live`
   | lostRel (s : Sid)                       -- `is_live` was False: about to release the entry lock
@@ -94,6 +112,7 @@ inductive Label where
   | allocSid (t : Tid) (s : Sid)                 -- `secrets.token_bytes` drew the (fresh) id
   | regAcq (t : Tid) | regRel (t : Tid)          -- registry lock
   | entAcq (t : Tid) (s : Sid) | entRel (t : Tid) (s : Sid)   -- entry lock of `s`
+  | entTimeout (t : Tid) (s : Sid)               -- `entry.lock.acquire(timeout=…)` of `_close_entry` returned False
   | lost (t : Tid)                               -- session_lost / DELETE 200 answered
   | dispatchBegin (t : Tid) (s : Sid)
   | mstep (t : Tid)                              -- one step of the method body
@@ -107,7 +126,7 @@ deriving Repr, DecidableEq
 def Label.tid : Label → Option Tid
   | .tick _ => none
   | .reqBegin t _ | .delBegin t _ | .openBegin t _ _ | .shutBegin t | .readClock t _ | .allocSid t _
-  | .regAcq t | .regRel t | .entAcq t _ | .entRel t _ | .lost t | .dispatchBegin t _ | .mstep t
+  | .regAcq t | .regRel t | .entAcq t _ | .entRel t _ | .entTimeout t _ | .lost t | .dispatchBegin t _ | .mstep t
   | .closeSession t | .dispatchEnd t _ | .closeStart t _ | .closeEnd t _ | .openDone t => some t
 
 structure St where
@@ -170,7 +189,7 @@ def regOp (st : St) : Pc → Option (St × Pc)
                     pmatch := upd st.pmatch s pm }, .openSeal s)
   | _ => none
 
-def step (st : St) : Label → Option St
+def stepD (dc : Disc) (st : St) : Label → Option St
   | .tick d => some { st with clock := st.clock + d }
   | .reqBegin t s =>
     match st.pc t with
@@ -231,6 +250,18 @@ def step (st : St) : Label → Option St
           some { st with ent := upd st.ent s l, pc := upd st.pc t (match k with | .req => .liveAcq s | .del => .delAcq s) }
         else none
       | _ => none
+  | .entTimeout t s =>
+    -- only a bounded wait can fail, and only while another thread holds the lock (the model does not track the
+    -- deadline: the timeout may fire at any such moment)
+    match st.pc t with
+    | .cAcq s' c =>
+      if s' = s ∧ dc.closeWaitMillis.isSome = true ∧ (st.ent s).acquire t = none then
+        (if dc.proceedsWithoutLock then
+          (if st.closedFlag s then some { st with pc := upd st.pc t (afterClose s c) }
+           else some { st with closedFlag := upd st.closedFlag s true, pc := upd st.pc t (.uOpen s c) })
+         else some { st with pc := upd st.pc t (afterClose s c) })
+      else none
+    | _ => none
   | .entRel t s =>
     match (st.ent s).release t with
     | none => none
@@ -269,6 +300,10 @@ def step (st : St) : Label → Option St
       if s' = s then
         some { st with pc := upd st.pc t (.cRun s c), crun := upd2 st.crun t s true, cstart := upd st.cstart s (st.cstart s + 1) }
       else none
+    | .uOpen s' c =>
+      if s' = s then
+        some { st with pc := upd st.pc t (.uRun s c), crun := upd2 st.crun t s true, cstart := upd st.cstart s (st.cstart s + 1) }
+      else none
     | _ => none
   | .closeEnd t s =>
     match st.pc t with
@@ -276,13 +311,23 @@ def step (st : St) : Label → Option St
       if s' = s then
         some { st with pc := upd st.pc t (.cRel s c), crun := upd2 st.crun t s false, cend := upd st.cend s (st.cend s + 1) }
       else none
+    | .uRun s' c =>
+      if s' = s then
+        some { st with pc := upd st.pc t (afterClose s c), crun := upd2 st.crun t s false, cend := upd st.cend s (st.cend s + 1) }
+      else none
     | _ => none
   | .openDone t =>
     match st.pc t with
     | .opened _ => some { st with pc := upd st.pc t .idle }
     | _ => none
 
+/-- the model of the source: the extracted discipline -/
+def step (st : St) (l : Label) : Option St := stepD srcDisc st l
+
 /-- the sticky-session machinery as a transition system of the Sched kit -/
 def ts : TS St Label := { init := {}, step := step }
+
+/-- the same machinery under any discipline (used by `Findings/C26.lean`) -/
+def tsD (d : Disc) : TS St Label := { init := {}, step := stepD d }
 
 end VgiVerif.C26
